@@ -36,6 +36,7 @@ class P(ServeProp):
             if r < 0.35: out += rnd.choice(SPECIAL)
             elif r < 0.39: out += "%" + rnd.choice(["26", "2B", "3F", "25", "20", "41", "zz", "2", "5D", "0A", "3D", "", "%"])
             elif r < 0.55: out += rnd.choice("é😀ü日本")
+            elif r < 0.60: out += rnd.choice("\ufffd\ufeff\ue000\U0010ffff\u00ad\u200b\u0301ßİ")      # printable text a decoder may treat specially: the replacement character, a BOM, private use, the last scalar value, soft hyphen, zero width space, a combining mark
             else: out += rnd.choice("abcXYZ019_-.~")
         return out
 
